@@ -9,27 +9,42 @@ From Glb Require Import Lib.RouteBytes Lib.RouteSpec Model.Router Model.StorePoo
     [LEnd k Returned|Recovered|Escaped] (reset + Put, or — when the panic leaves ServeHTTP —
     the Store is dropped), [LDrop i] (sync.Pool forgets a Store).  Requests overlap freely;
     [run] returns [Ok m], [Disabled] (the list is not a history: unknown request key, pool
-    index out of range, a rejected registration, or a registration while requests are in
-    flight — the ASSUMPTION of this property) or [Panic].
+    index out of range, or a registration while requests are in flight — the ASSUMPTION of
+    this property) or [Panic].  A REJECTED registration is part of a history: Handle panics,
+    the caller recovers, the Mux keeps the trie nodes parseRoute created before the error.
     [observe_flight f names] is everything a handler of the request in flight [f] reads
     through its Store; [fresh_core routes path method names] is what the same request reads
-    on a fresh Mux on which exactly [routes] were registered; [registered history] are the
-    routes registered so far. *)
+    on a fresh Mux on which exactly [routes] were registered (all accepted),
+    [fresh_core_attempts] the same for registration attempts some of which may be rejected;
+    [registered history] are the registration attempts so far. *)
 
 (** Whatever happened before and whatever else is in flight — other requests matched, not
-    matched, half matched, panicked with or without recovery, routes registered in between,
-    any reuse of pooled Stores — a request in flight reads exactly what it would read on a
-    fresh Mux with the routes registered so far; no parameter lookup panics; its id is the
-    Mux prefix followed by its own ticket. *)
+    matched, half matched, panicked with or without recovery, routes registered in between
+    (ACCEPTED OR REJECTED: a rejected Handle panics, the caller recovers, the trie keeps the
+    nodes created before the error), any reuse of pooled Stores — a request in flight reads
+    exactly what it would read on a fresh Mux on which the same registration attempts were
+    made; its id is the Mux prefix followed by its own ticket. *)
 Theorem C05_request_isolation : forall prefix history m f names,
   run (new_mux prefix) history = Ok m -> In f (m_flights m) ->
+  fresh_core_attempts (registered history) (f_path f) (f_method f) names
+  = Some (ob_target (observe_flight f names), ob_vals (observe_flight f names), ob_any (observe_flight f names))
+  /\ ob_id (observe_flight f names) = fit9 prefix ++ render_id (f_ticket f).
+Proof. exact reachable_isolated_attempts. Qed.
+Print Assumptions C05_request_isolation.
+
+(** When every registration so far was accepted, that is what the router specification says
+    for these routes ([fresh_core] = C04's [serve_http] on [register_all]), and no parameter
+    lookup panics. *)
+Theorem C05_request_isolation_accepted : forall prefix history m f names t,
+  run (new_mux prefix) history = Ok m -> In f (m_flights m) ->
+  register_all (registered history) = Some t ->
   fresh_core (registered history) (f_path f) (f_method f) names
   = Some (ob_target (observe_flight f names), ob_vals (observe_flight f names), ob_any (observe_flight f names))
   /\ ob_id (observe_flight f names) = fit9 prefix ++ render_id (f_ticket f)
   /\ Forall (fun v => v <> None) (ob_vals (observe_flight f names))
   /\ ob_any (observe_flight f names) <> None.
 Proof. exact reachable_isolated. Qed.
-Print Assumptions C05_request_isolation.
+Print Assumptions C05_request_isolation_accepted.
 
 (** No history makes ServeHTTP panic on its own account, and no further action does. *)
 Theorem C05_no_panic : forall prefix history,
@@ -177,6 +192,24 @@ Example ex_flush_status :
   /\ match run (new_mux pfx) [LBegin 0 None [47;117;47;49;47;50] GET; LWrite 0 (WriteHeader 404); LWrite 0 Flush; LEnd 0 Returned;
                               LBegin 1 (Some 0%nat) [47;117;47;49;47;50] GET] with
      | Ok m => option_map ob_status (observe m 1%nat []) = Some 0 /\ length (m_pool m) = 0%nat
+     | _ => False
+     end.
+Proof. vm_compute. repeat split; reflexivity. Qed.
+
+(** rejected registrations inside a history: "/u/:id/:id" is rejected but leaves "/u" and an empty "/:param" node;
+    "/u/5" then collects a value although no route exists; the Store is recycled clean, "/u/:id" is registered and the
+    next request on that Store reads its own value.  The rejected attempt is visible to every Mux alike: it shadows "/u/ *". *)
+Example ex_rejected_registration_in_history :
+  match run (new_mux pfx) [LRegister [47;117;47;58;105;100;47;58;105;100] GET; LBegin 0 None [47;117;47;53] GET; LEnd 0 Returned;
+                            LRegister [47;117;47;58;105;100] GET; LBegin 1 (Some 0%nat) [47;117;47;55] GET] with
+  | Ok m => option_map (fun o => (ob_target o, ob_vals o)) (observe m 1%nat [[105;100]]) = Some (Route 0%nat, [Some [55]])
+            /\ fresh_core_attempts [([47;117;47;58;105;100;47;58;105;100], GET); ([47;117;47;58;105;100], GET)] [47;117;47;55] GET [[105;100]] = Some (Route 0%nat, [Some [55]], Some [])
+  | _ => False
+  end
+  /\ match run (new_mux pfx) [LRegister [47;117;47;42] GET; LRegister [47;117;47;58;105;100;47;58;105;100] GET; LBegin 0 None [47;117;47;53] GET] with
+     | Ok m => option_map ob_target (observe m 0%nat []) = Some NoRoute
+               /\ fresh_core_attempts [([47;117;47;42], GET); ([47;117;47;58;105;100;47;58;105;100], GET)] [47;117;47;53] GET [] = Some (NoRoute, [], Some [])
+               /\ fresh_core [([47;117;47;42], GET)] [47;117;47;53] GET [] = Some (Route 0%nat, [], Some [53])
      | _ => False
      end.
 Proof. vm_compute. repeat split; reflexivity. Qed.
